@@ -153,16 +153,27 @@ theorem removeClause_preserves {c : Catalog} {n i : Nat} (hc : CatOK c) : CatOK 
           · exact mem_of_catGet hget r (List.mem_of_mem_eraseIdx h)
           · exact h
 
-def Op.isReplace : Op → Bool
-  | .replace _ _ _ => true
-  | _ => false
+theorem replaceClause_preserves {c : Catalog} {n i : Nat} {r : Rule} (hc : CatOK c) :
+    CatOK (replaceClause c n i r).1 := by
+  unfold replaceClause
+  split
+  · exact hc
+  · split
+    · exact hc
+    · split
+      · exact hc
+      · dsimp only
+        split
+        · exact hc
+        · rename_i h
+          unfold CatOK
+          simpa using h
 
-theorem step_preserves {s : St} {op : Op} (hop : op.isReplace = false) (hc : CatOK s.cat) :
-    CatOK (step s op).1.cat := by
+theorem step_preserves {s : St} {op : Op} (hc : CatOK s.cat) : CatOK (step s op).1.cat := by
   cases op with
   | persist r => exact register_preserves hc
   | registerApi r => exact register_preserves hc
-  | replace n i r => cases hop
+  | replace n i r => exact replaceClause_preserves hc
   | drop n => exact dropRule_preserves hc
   | dropPrefix d => exact dropPrefix_preserves hc
   | clear n => exact clearRule_preserves hc
@@ -183,14 +194,30 @@ theorem step_preserves {s : St} {op : Op} (hop : op.isReplace = false) (hc : Cat
 theorem runSt_cons (s : St) (op : Op) (ops : List Op) : runSt s (op :: ops) = runSt (step s op).1 ops := by
   simp [runSt, run]
 
-theorem runSt_preserves {ops : List Op} : ∀ {s : St}, (∀ op, op ∈ ops → op.isReplace = false) → CatOK s.cat →
-    CatOK (runSt s ops).cat := by
+theorem runSt_preserves {ops : List Op} : ∀ {s : St}, CatOK s.cat → CatOK (runSt s ops).cat := by
   induction ops with
-  | nil => intro s _ hc; exact hc
+  | nil => intro s hc; exact hc
   | cons op ops ih =>
-    intro s hops hc
+    intro s hc
     rw [runSt_cons]
-    exact ih (fun o ho => hops o (List.mem_cons_of_mem _ ho))
-      (step_preserves (hops op (List.mem_cons_self ..)) hc)
+    exact ih (step_preserves hc)
+
+/-- request-local rules that are all accepted are exactly the ones sent -/
+theorem acceptLocals_ok : ∀ (rs acc out : List Rule), acceptLocals acc rs = .ok out → out = acc ++ rs
+  | [], acc, out, h => by simp [acceptLocals] at h; simp [h]
+  | r :: rs, acc, out, h => by
+    unfold acceptLocals at h
+    split at h
+    · cases h
+    · split at h
+      · have := acceptLocals_ok rs (acc ++ [r]) out h
+        simp [this]
+      · cases h
+
+theorem runQuery_eval {rs : List Rule} (h : runQuery rs = .eval) : stratRejects rs = false := by
+  unfold runQuery at h
+  cases hr : stratRejects rs with
+  | false => rfl
+  | true => simp [hr] at h
 
 end ILV.Strat
